@@ -110,6 +110,9 @@ def families(prop: str, tier: str, seed: int) -> List[Dict[str, Any]]:
     if prop in ("C01", "C02", "C03", "C04", "C06", "C07", "C12"):
         s += g.gen_api(seed, 150 * k)
     s += g.gen_cli(seed, 200 * k)
+    if prop in ("C03", "C04"):
+        from engine import flow
+        s += [dict(x, noconf=True) for x in flow.gen_flow_large(seed, 150 * k)]   # conformance of these: TraceFlow (FlowAbs)
     # witnesses of open known findings and regression scenarios of fixed ones are always executed
     for kf in common.known_findings():
         if kf["property"] == prop:
@@ -269,6 +272,36 @@ def run_check(prop: str, tier: str, write: bool = True) -> int:
     for (a, b), i in zip(cf, sample_idx):
         if a != b:
             rep.divergence(f"trace of family {scns[i].get('family')} not explained by the model beyond event {a - 1} of {b - 1}")
+    # ---- 4b. C03/C04 for every A, P, N: FlowAbs (Apalache inductive invariant) + conformance of real traces to FlowAbs
+    parametric: Dict[str, Any] = {}
+    if prop in ("C03", "C04"):
+        from engine import flow
+        pr = flow.apalache_proof()
+        if not pr["ok"]:
+            common.die_machinery(prop, "Apalache did not discharge the FlowAbs obligations: %s" % json.dumps(pr)[:1500])
+        inst = [(1, 0, 2), (2, 1, 0), (3, 2, 3)] if tier == "quick" else [(a, p_, n) for a in (1, 2, 3, 4) for p_ in (0, 1, 2, 3) for n in (0, 2, 5)]
+        ms = flow.mc_small(inst, slack=3 if tier == "quick" else 5)
+        if not ms["ok"]:
+            common.die_machinery(prop, "TLC refutes FlowAbs invariants on a small instance: %s" % json.dumps(ms)[:1500])
+        fl_idx = [i for i in range(len(traces)) if scns[i].get("family") == "flow_large"]
+        rest = [i for i in range(len(traces)) if scns[i].get("family") != "flow_large" and flow.eligible(traces[i])]
+        fl_idx += rest[::max(1, len(rest) // (300 if tier == "quick" else 3000))]
+        try:
+            fr = flow.conform_flow([traces[i] for i in fl_idx])
+        except tlc.TLCError as exc:
+            if not rep.violations:
+                raise
+            rep.info("FlowAbs conformance run failed after violations were found: " + str(exc)[:300])
+            fr = []
+        f_acc = sum(1 for (_, a, b) in fr if a == b)
+        for (j, a, b) in fr:
+            if a != b:
+                rep.divergence(f"trace of family {scns[fl_idx[j]].get('family')} is not a behaviour of FlowAbs beyond projected event {a - 1} of {b - 1}")
+        parametric = {"apalache": pr, "tlc_small_instances": {"instances": ms["instances"], "distinct": ms["states"]},
+                      "flowabs_conformance": {"checked": len(fr), "accepted": f_acc,
+                                              "largest_limits": "A <= 9, P <= 7, up to 40 messages (family flow_large)"}}
+        rep.info(f"FlowAbs: Apalache discharged {len(pr['obligations'])} obligations for all A >= 1, P, N in {pr['wall_s']}s; "
+                 f"{f_acc}/{len(fr)} real traces are behaviours of FlowAbs")
     # ---- 5. evidence
     canon = set()
     nontriv = 0
@@ -299,6 +332,7 @@ def run_check(prop: str, tier: str, write: bool = True) -> int:
         "families": fam_count,
         "mc_runs": mc_runs,
         "model_conformance": {"checked": len(cf), "accepted": accepted},
+        "parametric": parametric,
         "model_switches": sw,
         "known_findings_reproduced": sorted(seen_kf),
         "checker_cmd": "tlc ObsReceiver (verdict) / TraceReceiver (conformance) / MC_Rx (design)",
